@@ -40,7 +40,7 @@ pub fn expected_steps_ordered<G: AffineRepr>(prog: &Program, commitments: &[G], 
     let mut tcount = 0u64;
     for op in &prog.p1 {
         match op {
-            Op::C => {
+            Op::C | Op::CD => {
                 s.push(point_step(&format!("V[{}]", vj), &commitments[vj]));
                 vj += 1;
             }
@@ -176,4 +176,30 @@ pub fn run_monitor(steps: &[Step], events: &[MainEvent]) -> Result<Matched, Stri
         return Err(format!("unexpected extra {} {:?} after the last protocol step", if e.is_challenge { "challenge" } else { "append" }, e.label));
     }
     Ok(m)
+}
+
+/// Prefix monitor for runs that may stop early (a verifier rejecting a proof): every recorded
+/// event must match the step at its position; the run may end before the schedule does.
+pub fn run_monitor_prefix(steps: &[Step], events: &[MainEvent]) -> Result<usize, String> {
+    if events.len() > steps.len() {
+        return Err(format!("{} events but the schedule has only {} steps", events.len(), steps.len()));
+    }
+    for (i, e) in events.iter().enumerate() {
+        match &steps[i] {
+            Step::Append { name, payloads } => {
+                if e.is_challenge {
+                    return Err(format!("step #{} {}: expected an append, the transcript squeezed challenge {:?}", i, name, e.label));
+                }
+                if !payloads.is_empty() && !payloads.contains(&e.data) {
+                    return Err(format!("step #{} {}: the transcript absorbed {} bytes that are not the full encoding of the element the proof carries", i, name, e.data.len()));
+                }
+            }
+            Step::Challenge { name } => {
+                if !e.is_challenge {
+                    return Err(format!("step #{} {}: expected a challenge, the transcript absorbed {:?}", i, name, e.label));
+                }
+            }
+        }
+    }
+    Ok(events.len())
 }
